@@ -6,12 +6,14 @@ import (
 	"os"
 	"sort"
 	"strconv"
+	"strings"
 	"sync"
 	"sync/atomic"
 	"testing"
 	"time"
 
 	"github.com/ryogrid/SamehadaDB/lib/storage/page"
+	"github.com/ryogrid/SamehadaDB/lib/storage/tuple"
 	"github.com/ryogrid/SamehadaDB/lib/types"
 
 	"verifharness/dbh"
@@ -34,6 +36,9 @@ type ConcCase struct {
 	OpsPerW int    `json:"ops_per_writer"`
 	Frames  int    `json:"frames"`
 	Seed    int64  `json:"seed"`
+	// Wide: keys are 808-byte strings ("%08d" + padding) instead of integers: a skip-list node holds four entries, so nodes
+	// split, empty and get unlinked all the time while other goroutines work on them
+	Wide bool `json:"wide,omitempty"`
 }
 
 type concStats struct {
@@ -42,21 +47,44 @@ type concStats struct {
 	writes                 int64
 }
 
-const rule2 = "Case (concurrent) = index kind x (2-6 writer goroutines owning disjoint integer key sets, 1-3 readers of 150 stable entries, 1-2 range scanners) on one index of a catalog-created table with a pool small enough to evict index pages. Oracles: stable keys always found with their row id; a writer sees its own completed operations; every range scan sorted, duplicate-free, containing all stable entries in range and nothing that was never inserted; final content = stable + writers' final sets. Non-trivial = a run in which range scans overlapped structural modifications (both counted while running)."
+const rule2 = "Case (concurrent) = index kind x (2-6 writer goroutines owning disjoint key sets (integers, or for the skip-list kinds 808-byte strings so that a node holds four entries and node removal is frequent), 1-3 readers of 150 stable entries, 1-2 range scanners) on one index of a catalog-created table with a pool small enough to evict index pages. Oracles: stable keys always found with their row id; a writer sees its own completed operations; every range scan sorted, duplicate-free, containing all stable entries in range and nothing that was never inserted; final content = stable + writers' final sets. Non-trivial = a run in which range scans overlapped structural modifications (both counted while running)."
 
 func runConc(c *ConcCase, cs *concStats) *vf.Failure {
-	e, err := openIndex(c.Kind, "i", c.Frames)
+	keyT, span := "i", 400
+	pad := ""
+	if c.Wide {
+		keyT, span, pad = "s", 24, strings.Repeat("w", 800)
+	}
+	e, err := openIndex(c.Kind, keyT, c.Frames)
 	if err != nil {
 		return vf.Failf("create-error", "%v", err)
 	}
 	defer e.db.Stop()
+	kv := func(k int32) dbh.Val { // the key value of logical key k
+		if c.Wide {
+			return dbh.StrV(fmt.Sprintf("%08d", k) + pad)
+		}
+		return dbh.IntV(k)
+	}
+	kt := func(k int32) *tuple.Tuple { return e.tup(kv(k)) }
+	keyInt := func(v dbh.Val) int32 { // logical key of a scanned entry
+		if c.Wide {
+			n, _ := strconv.Atoi(v.S[:8])
+			return int32(n)
+		}
+		return v.I
+	}
 	ordered := c.Kind != dbh.IdxHash
 	// stable entries: keys 1000000 + 10*i
 	stable := map[int32]page.RID{}
-	for i := 0; i < 150; i++ {
-		k := int32(1000000 + 10*i)
+	nStable, stableStep := 150, 10
+	if c.Wide {
+		nStable, stableStep = 12, 100 // few never-touched entries, so that nodes really run empty
+	}
+	for i := 0; i < nStable; i++ {
+		k := int32(1000000 + stableStep*i)
 		rid := page.RID{PageID: 7, SlotNum: uint32(i)}
-		e.idx.InsertEntry(e.tup(dbh.IntV(k)), rid, nil)
+		e.idx.InsertEntry(kt(k), rid, nil)
 		stable[k] = rid
 	}
 	var failMu sync.Mutex
@@ -90,40 +118,40 @@ func runConc(c *ConcCase, cs *concStats) *vf.Failure {
 			// owned keys interleave with the stable ones: 1000000 + 10*i + (w+1), i in [0,400)
 			keyOf := func(i int) int32 { return int32(1000000 + 10*i + (w + 1)) }
 			for n := 0; n < c.OpsPerW && !failed(); n++ {
-				i := rng.Intn(400)
+				i := rng.Intn(span)
 				k := keyOf(i)
 				rid, have := own[k]
 				switch {
 				case !have:
 					nr := page.RID{PageID: int32ToPID(100 + w), SlotNum: uint32(n % 60000)}
 					everInserted.Store(k, true)
-					e.idx.InsertEntry(e.tup(dbh.IntV(k)), nr, nil)
+					e.idx.InsertEntry(kt(k), nr, nil)
 					own[k] = nr
 					atomic.AddInt64(&cs.writes, 1)
-					if got := e.idx.ScanKey(e.tup(dbh.IntV(k)), nil); !sameRIDs(got, []page.RID{nr}) {
+					if got := e.idx.ScanKey(kt(k), nil); !sameRIDs(got, []page.RID{nr}) {
 						setFail(vf.Failf("conc-own-insert-lost:"+c.Kind, "writer %d inserted key %d -> %v, its own lookup right after returned %v", w, k, nr, got))
 						return
 					}
 				case rng.Intn(3) == 0 && c.Kind != dbh.IdxHash:
-					nk := keyOf(rng.Intn(400))
+					nk := keyOf(rng.Intn(span))
 					if _, taken := own[nk]; taken && nk != k {
 						continue
 					}
 					nr := page.RID{PageID: int32ToPID(100 + w), SlotNum: uint32(n % 60000)}
 					everInserted.Store(nk, true)
-					e.idx.UpdateEntry(e.tup(dbh.IntV(k)), rid, e.tup(dbh.IntV(nk)), nr, nil)
+					e.idx.UpdateEntry(kt(k), rid, kt(nk), nr, nil)
 					delete(own, k)
 					own[nk] = nr
 					atomic.AddInt64(&cs.writes, 1)
-					if got := e.idx.ScanKey(e.tup(dbh.IntV(nk)), nil); !sameRIDs(got, []page.RID{nr}) {
+					if got := e.idx.ScanKey(kt(nk), nil); !sameRIDs(got, []page.RID{nr}) {
 						setFail(vf.Failf("conc-own-update-lost:"+c.Kind, "writer %d updated key %d -> %d (%v), its own lookup of the new key returned %v", w, k, nk, nr, got))
 						return
 					}
 				default:
-					e.idx.DeleteEntry(e.tup(dbh.IntV(k)), rid, nil)
+					e.idx.DeleteEntry(kt(k), rid, nil)
 					delete(own, k)
 					atomic.AddInt64(&cs.writes, 1)
-					if got := e.idx.ScanKey(e.tup(dbh.IntV(k)), nil); len(got) != 0 {
+					if got := e.idx.ScanKey(kt(k), nil); len(got) != 0 {
 						setFail(vf.Failf("conc-own-delete-lost:"+c.Kind, "writer %d deleted key %d, its own lookup right after returned %v", w, k, got))
 						return
 					}
@@ -144,8 +172,8 @@ func runConc(c *ConcCase, cs *concStats) *vf.Failure {
 			}()
 			rng := rand.New(rand.NewSource(c.Seed*977 + int64(r)))
 			for atomic.LoadInt32(&stop) == 0 && !failed() {
-				k := int32(1000000 + 10*rng.Intn(150))
-				got := e.idx.ScanKey(e.tup(dbh.IntV(k)), nil)
+				k := int32(1000000 + stableStep*rng.Intn(nStable))
+				got := e.idx.ScanKey(kt(k), nil)
 				atomic.AddInt64(&cs.lookups, 1)
 				if !sameRIDs(got, []page.RID{stable[k]}) {
 					setFail(vf.Failf("conc-stable-lookup:"+c.Kind, "lookup of the never-touched key %d returned %v, expected [%v] (writers active: %d)", k, got, stable[k], atomic.LoadInt32(&writersActive)))
@@ -165,11 +193,14 @@ func runConc(c *ConcCase, cs *concStats) *vf.Failure {
 					}
 				}()
 				rng := rand.New(rand.NewSource(c.Seed*31 + int64(s)))
-				cc := &Case{Kind: c.Kind, KeyT: "i"}
+				cc := &Case{Kind: c.Kind, KeyT: keyT}
 				for atomic.LoadInt32(&stop) == 0 && !failed() {
 					a := int32(1000000 + rng.Intn(3000))
 					b := a + int32(rng.Intn(1500))
-					lo, hi := dbh.IntV(a), dbh.IntV(b)
+					lo, hi := kv(a), kv(b)
+					if c.Wide {
+						lo = dbh.StrV(fmt.Sprintf("%08d", a))
+					}
 					w0 := atomic.LoadInt64(&cs.writes)
 					got, f := scanRange(e, cc, &lo, &hi)
 					if f != nil {
@@ -181,22 +212,22 @@ func runConc(c *ConcCase, cs *concStats) *vf.Failure {
 					}
 					seen := map[int32]bool{}
 					for i, en := range got {
-						if i > 0 && got[i-1].key.I > en.key.I {
+						if i > 0 && keyInt(got[i-1].key) > keyInt(en.key) {
 							setFail(vf.Failf("conc-scan-order:"+c.Kind, "range scan [%d,%d] returned keys out of order: %s", a, b, fmtEntries(got)))
 							return
 						}
-						if en.key.I < a || en.key.I > b {
-							setFail(vf.Failf("conc-scan-bounds:"+c.Kind, "range scan [%d,%d] returned key %d", a, b, en.key.I))
+						if keyInt(en.key) < a || keyInt(en.key) > b {
+							setFail(vf.Failf("conc-scan-bounds:"+c.Kind, "range scan [%d,%d] returned key %d", a, b, keyInt(en.key)))
 							return
 						}
-						if seen[en.key.I] {
-							setFail(vf.Failf("conc-scan-duplicate:"+c.Kind, "range scan [%d,%d] returned key %d twice (keys are unique in this workload)", a, b, en.key.I))
+						if seen[keyInt(en.key)] {
+							setFail(vf.Failf("conc-scan-duplicate:"+c.Kind, "range scan [%d,%d] returned key %d twice (keys are unique in this workload)", a, b, keyInt(en.key)))
 							return
 						}
-						seen[en.key.I] = true
-						if _, st := stable[en.key.I]; !st {
-							if _, ok := everInserted.Load(en.key.I); !ok {
-								setFail(vf.Failf("conc-scan-invented:"+c.Kind, "range scan returned key %d which was never inserted", en.key.I))
+						seen[keyInt(en.key)] = true
+						if _, st := stable[keyInt(en.key)]; !st {
+							if _, ok := everInserted.Load(keyInt(en.key)); !ok {
+								setFail(vf.Failf("conc-scan-invented:"+c.Kind, "range scan returned key %d which was never inserted", keyInt(en.key)))
 								return
 							}
 						}
@@ -233,13 +264,13 @@ func runConc(c *ConcCase, cs *concStats) *vf.Failure {
 		}
 	}
 	if ordered {
-		got, f := scanRange(e, &Case{Kind: c.Kind, KeyT: "i"}, nil, nil)
+		got, f := scanRange(e, &Case{Kind: c.Kind, KeyT: keyT}, nil, nil)
 		if f != nil {
 			return f
 		}
 		gm := map[int32]page.RID{}
 		for _, en := range got {
-			gm[en.key.I] = en.rid
+			gm[keyInt(en.key)] = en.rid
 		}
 		var diff []string
 		for k, r := range want {
@@ -261,7 +292,7 @@ func runConc(c *ConcCase, cs *concStats) *vf.Failure {
 		}
 	} else {
 		for k, r := range want {
-			if got := e.idx.ScanKey(e.tup(dbh.IntV(k)), nil); !sameRIDs(got, []page.RID{r}) {
+			if got := e.idx.ScanKey(kt(k), nil); !sameRIDs(got, []page.RID{r}) {
 				return vf.Failf("conc-final-state:"+c.Kind, "after all goroutines finished key %d -> %v, expected [%v]", k, got, r)
 			}
 		}
@@ -275,7 +306,7 @@ func TestConcurrent(t *testing.T) {
 	s := vf.Open("C17")
 	s.Rule, s.Assumptions = rule2, assumptions
 	defer func() { s.Flush(!t.Failed()) }()
-	runs := s.Pick(3, 25)
+	runs := s.Pick(8, 40)
 	if v := os.Getenv("VERIF_C17_RUNS"); v != "" {
 		runs, _ = strconv.Atoi(v)
 	}
@@ -284,6 +315,9 @@ func TestConcurrent(t *testing.T) {
 	for i := 0; i < runs; i++ {
 		c := &ConcCase{Kind: kinds[(i+s.Shard)%len(kinds)], Writers: 2 + rng.Intn(5), Readers: 1 + rng.Intn(3), Scans: 1 + rng.Intn(2),
 			OpsPerW: s.Pick(400, 1500), Frames: 40 + rng.Intn(40), Seed: rng.Int63()}
+		if (c.Kind == dbh.IdxSkip || c.Kind == dbh.IdxUniqSkip) && rng.Intn(3) != 0 {
+			c.Wide = true
+		}
 		if c.Kind == dbh.IdxBtree {
 			c.Frames += 30
 		}
